@@ -317,96 +317,67 @@ let post_import n s =
      | _ -> s)
   | None -> s
 
+type mode =
+| MExpr
+| MNoLower
+| MSwitch
+| MStmts
+
 (** val visit_list_with :
-    (bool -> node -> st -> node * st) -> bool -> node list -> st -> node
+    (mode -> node -> st -> node * st) -> mode -> node list -> st -> node
     list * st **)
 
-let rec visit_list_with rec0 lw l s =
+let rec visit_list_with rec0 m l s =
   match l with
   | [] -> ([], s)
   | x :: r ->
-    let (x', s0) = rec0 lw x s in
-    let (r', s1) = visit_list_with rec0 lw r s0 in ((x' :: r'), s1)
+    let (x', s0) = rec0 m x s in
+    let (r', s1) = visit_list_with rec0 m r s0 in ((x' :: r'), s1)
+
+(** val jsx_item_mode : node -> mode **)
+
+let jsx_item_mode = function
+| JsxE (_, _, _, _, _, _) -> MNoLower
+| JsxF _ -> MNoLower
+| _ -> MExpr
 
 (** val visit_jsx_list_with :
-    (bool -> node -> st -> node * st) -> node list -> st -> node list * st **)
+    (mode -> node -> st -> node * st) -> node list -> st -> node list * st **)
 
 let rec visit_jsx_list_with rec0 l s =
   match l with
   | [] -> ([], s)
   | x :: r ->
-    let (x', s0) =
-      match x with
-      | JsxE (_, _, _, _, _, _) -> rec0 false x s
-      | JsxF _ -> rec0 false x s
-      | JAttr (nm, v) ->
-        (match v with
-         | JsxE (_, _, _, _, _, _) ->
-           let (v', s0) = rec0 false v s in ((JAttr (nm, v')), s0)
-         | JsxF _ -> let (v', s0) = rec0 false v s in ((JAttr (nm, v')), s0)
-         | _ -> rec0 true x s)
-      | _ -> rec0 true x s
-    in
+    let (x', s0) = rec0 (jsx_item_mode x) x s in
     let (r', s1) = visit_jsx_list_with rec0 r s0 in ((x' :: r'), s1)
 
 (** val visit_stmts_with :
-    (bool -> node -> st -> node * st) -> node list -> st -> node list * st **)
+    (mode -> node -> st -> node * st) -> node list -> st -> node list * st **)
 
 let visit_stmts_with rec0 stmts s =
   let s0 = enter_scope s in
-  let (stmts', s1) = visit_list_with rec0 true stmts s0 in
+  let (stmts', s1) = visit_list_with rec0 MExpr stmts s0 in
   ((app (pending_decls s1) stmts'), (leave_scope s s1))
-
-(** val visit_switch_fields_with :
-    (bool -> node -> st -> node * st) -> node list -> st -> node list * st **)
-
-let rec visit_switch_fields_with rec0 l s =
-  match l with
-  | [] -> ([], s)
-  | x :: r ->
-    (match x with
-     | Field (k, v) ->
-       (match v with
-        | NArr stmts ->
-          let (stmts', s0) =
-            if sq (String ((Ascii (true, true, false, false, false, true,
-                 true, false)), (String ((Ascii (true, true, true, true,
-                 false, true, true, false)), (String ((Ascii (false, true,
-                 true, true, false, true, true, false)), (String ((Ascii
-                 (true, true, false, false, true, true, true, false)),
-                 (String ((Ascii (true, false, true, false, false, true,
-                 true, false)), (String ((Ascii (true, false, false, false,
-                 true, true, true, false)), (String ((Ascii (true, false,
-                 true, false, true, true, true, false)), (String ((Ascii
-                 (true, false, true, false, false, true, true, false)),
-                 (String ((Ascii (false, true, true, true, false, true, true,
-                 false)), (String ((Ascii (false, false, true, false, true,
-                 true, true, false)), EmptyString)))))))))))))))))))) k
-            then visit_stmts_with rec0 stmts s
-            else visit_list_with rec0 true stmts s
-          in
-          let (r', s1) = visit_switch_fields_with rec0 r s0 in
-          (((Field (k, (NArr stmts'))) :: r'), s1)
-        | _ ->
-          let (x', s0) = rec0 true x s in
-          let (r', s1) = visit_switch_fields_with rec0 r s0 in
-          ((x' :: r'), s1))
-     | _ ->
-       let (x', s0) = rec0 true x s in
-       let (r', s1) = visit_switch_fields_with rec0 r s0 in ((x' :: r'), s1))
 
 (** val visit :
     env -> (node -> st -> node * st) -> (node -> st -> node * st) -> (node ->
-    st -> st) -> bool -> node -> st -> node * st **)
+    st -> st) -> mode -> node -> st -> node * st **)
 
-let rec visit e hook_call hook_declarator hook_ts_decl lower n s =
+let rec visit e hook_call hook_declarator hook_ts_decl m n s =
   match n with
   | NArr l ->
-    let (l', s0) =
-      visit_list_with (visit e hook_call hook_declarator hook_ts_decl) true l
-        s
-    in
-    ((NArr l'), s0)
+    (match m with
+     | MStmts ->
+       let (l', s0) =
+         visit_stmts_with (visit e hook_call hook_declarator hook_ts_decl) l s
+       in
+       ((NArr l'), s0)
+     | _ ->
+       let (l', s0) =
+         visit_list_with (visit e hook_call hook_declarator hook_ts_decl)
+           MExpr l s
+       in
+       ((NArr l'), s0))
   | NObj fields ->
     if sq (String ((Ascii (true, true, false, false, true, false, true,
          false)), (String ((Ascii (true, true, true, false, true, true, true,
@@ -421,13 +392,13 @@ let rec visit e hook_call hook_declarator hook_ts_decl lower n s =
          ((Ascii (true, false, true, false, false, true, true, false)),
          EmptyString)))))))))))))))))))) (ntype n)
     then let (fields', s0) =
-           visit_switch_fields_with
-             (visit e hook_call hook_declarator hook_ts_decl) fields s
+           visit_list_with (visit e hook_call hook_declarator hook_ts_decl)
+             MSwitch fields s
          in
          ((NObj fields'), s0)
     else let (fields', s0) =
            visit_list_with (visit e hook_call hook_declarator hook_ts_decl)
-             true fields s
+             MExpr fields s
          in
          let n' = NObj fields' in
          let ty = ntype n in
@@ -550,51 +521,74 @@ let rec visit e hook_call hook_declarator hook_ts_decl lower n s =
                    then (n', (hook_ts_decl n' s0))
                    else (n', s0)
   | Field (k, v) ->
-    let (v', s0) = visit e hook_call hook_declarator hook_ts_decl true v s in
+    let m' =
+      match m with
+      | MSwitch ->
+        if sq (String ((Ascii (true, true, false, false, false, true, true,
+             false)), (String ((Ascii (true, true, true, true, false, true,
+             true, false)), (String ((Ascii (false, true, true, true, false,
+             true, true, false)), (String ((Ascii (true, true, false, false,
+             true, true, true, false)), (String ((Ascii (true, false, true,
+             false, false, true, true, false)), (String ((Ascii (true, false,
+             false, false, true, true, true, false)), (String ((Ascii (true,
+             false, true, false, true, true, true, false)), (String ((Ascii
+             (true, false, true, false, false, true, true, false)), (String
+             ((Ascii (false, true, true, true, false, true, true, false)),
+             (String ((Ascii (false, false, true, false, true, true, true,
+             false)), EmptyString)))))))))))))))))))) k
+        then MStmts
+        else MExpr
+      | _ -> MExpr
+    in
+    let (v', s0) = visit e hook_call hook_declarator hook_ts_decl m' v s in
     ((Field (k, v')), s0)
   | BIdent (sym, c, o, t) ->
-    let (t', s0) = visit e hook_call hook_declarator hook_ts_decl true t s in
+    let (t', s0) = visit e hook_call hook_declarator hook_ts_decl MExpr t s in
     ((BIdent (sym, c, o, t')), s0)
   | Arr elems ->
     let (e', s0) =
-      visit_list_with (visit e hook_call hook_declarator hook_ts_decl) true
+      visit_list_with (visit e hook_call hook_declarator hook_ts_decl) MExpr
         elems s
     in
     ((Arr e'), s0)
   | Elem (sp, e0) ->
-    let (e', s0) = visit e hook_call hook_declarator hook_ts_decl true e0 s in
+    let (e', s0) = visit e hook_call hook_declarator hook_ts_decl MExpr e0 s
+    in
     ((Elem (sp, e')), s0)
   | Obj props ->
     let (p', s0) =
-      visit_list_with (visit e hook_call hook_declarator hook_ts_decl) true
+      visit_list_with (visit e hook_call hook_declarator hook_ts_decl) MExpr
         props s
     in
     ((Obj p'), s0)
   | KV (k, v) ->
-    let (k', s0) = visit e hook_call hook_declarator hook_ts_decl true k s in
-    let (v', s1) = visit e hook_call hook_declarator hook_ts_decl true v s0 in
+    let (k', s0) = visit e hook_call hook_declarator hook_ts_decl MExpr k s in
+    let (v', s1) = visit e hook_call hook_declarator hook_ts_decl MExpr v s0
+    in
     ((KV (k', v')), s1)
   | Computed e0 ->
-    let (e', s0) = visit e hook_call hook_declarator hook_ts_decl true e0 s in
+    let (e', s0) = visit e hook_call hook_declarator hook_ts_decl MExpr e0 s
+    in
     ((Computed e'), s0)
   | Spread e0 ->
-    let (e', s0) = visit e hook_call hook_declarator hook_ts_decl true e0 s in
+    let (e', s0) = visit e hook_call hook_declarator hook_ts_decl MExpr e0 s
+    in
     ((Spread e'), s0)
   | Call (sy, c, f, args, ta) ->
-    let (f', s0) = visit e hook_call hook_declarator hook_ts_decl true f s in
+    let (f', s0) = visit e hook_call hook_declarator hook_ts_decl MExpr f s in
     let (args', s1) =
-      visit_list_with (visit e hook_call hook_declarator hook_ts_decl) true
+      visit_list_with (visit e hook_call hook_declarator hook_ts_decl) MExpr
         args s0
     in
     hook_call (Call (sy, c, f', args', ta)) s1
   | Arrow (c, params, body, a, g, tp, rt) ->
     let (params', s0) =
-      visit_list_with (visit e hook_call hook_declarator hook_ts_decl) true
+      visit_list_with (visit e hook_call hook_declarator hook_ts_decl) MExpr
         params s
     in
     let s1 = enter_scope s0 in
     let (body', s2) =
-      visit e hook_call hook_declarator hook_ts_decl true body s1
+      visit e hook_call hook_declarator hook_ts_decl MExpr body s1
     in
     let body'' =
       match arrow_decls s2 with
@@ -611,35 +605,43 @@ let rec visit e hook_call hook_declarator hook_ts_decl lower n s =
      | BIdent (sym, _, _, _) ->
        let outer = s.assign_left in
        let s0 = set_assign_left (Some sym) s in
-       let (l', s1) = visit e hook_call hook_declarator hook_ts_decl true l s0
+       let (l', s1) =
+         visit e hook_call hook_declarator hook_ts_decl MExpr l s0
        in
-       let (r', s2) = visit e hook_call hook_declarator hook_ts_decl true r s1
+       let (r', s2) =
+         visit e hook_call hook_declarator hook_ts_decl MExpr r s1
        in
        ((Assign (op, l', r')), (set_assign_left outer s2))
      | _ ->
-       let (l', s0) = visit e hook_call hook_declarator hook_ts_decl true l s
+       let (l', s0) = visit e hook_call hook_declarator hook_ts_decl MExpr l s
        in
-       let (r', s1) = visit e hook_call hook_declarator hook_ts_decl true r s0
+       let (r', s1) =
+         visit e hook_call hook_declarator hook_ts_decl MExpr r s0
        in
        ((Assign (op, l', r')), s1))
   | Paren e0 ->
-    let (e', s0) = visit e hook_call hook_declarator hook_ts_decl true e0 s in
+    let (e', s0) = visit e hook_call hook_declarator hook_ts_decl MExpr e0 s
+    in
     ((Paren e'), s0)
   | Cond (t, c, a) ->
-    let (t', s0) = visit e hook_call hook_declarator hook_ts_decl true t s in
-    let (c', s1) = visit e hook_call hook_declarator hook_ts_decl true c s0 in
-    let (a', s2) = visit e hook_call hook_declarator hook_ts_decl true a s1 in
+    let (t', s0) = visit e hook_call hook_declarator hook_ts_decl MExpr t s in
+    let (c', s1) = visit e hook_call hook_declarator hook_ts_decl MExpr c s0
+    in
+    let (a', s2) = visit e hook_call hook_declarator hook_ts_decl MExpr a s1
+    in
     ((Cond (t', c', a')), s2)
   | Bin (op, l, r) ->
-    let (l', s0) = visit e hook_call hook_declarator hook_ts_decl true l s in
-    let (r', s1) = visit e hook_call hook_declarator hook_ts_decl true r s0 in
+    let (l', s0) = visit e hook_call hook_declarator hook_ts_decl MExpr l s in
+    let (r', s1) = visit e hook_call hook_declarator hook_ts_decl MExpr r s0
+    in
     ((Bin (op, l', r')), s1)
   | Unary (op, a) ->
-    let (a', s0) = visit e hook_call hook_declarator hook_ts_decl true a s in
+    let (a', s0) = visit e hook_call hook_declarator hook_ts_decl MExpr a s in
     ((Unary (op, a')), s0)
   | Member (o, p) ->
-    let (o', s0) = visit e hook_call hook_declarator hook_ts_decl true o s in
-    let (p', s1) = visit e hook_call hook_declarator hook_ts_decl true p s0 in
+    let (o', s0) = visit e hook_call hook_declarator hook_ts_decl MExpr o s in
+    let (p', s1) = visit e hook_call hook_declarator hook_ts_decl MExpr p s0
+    in
     ((Member (o', p')), s1)
   | Block (c, stmts) ->
     let (stmts', s0) =
@@ -658,21 +660,30 @@ let rec visit e hook_call hook_declarator hook_ts_decl lower n s =
         children s1
     in
     let n' = JsxE (name, attrs'0, sc, ta, children', closing) in
-    if lower then lower_el e n' s2 else (n', s2)
+    (match m with
+     | MNoLower -> (n', s2)
+     | _ -> lower_el e n' s2)
   | JsxF children ->
     let (children', s0) =
       visit_jsx_list_with (visit e hook_call hook_declarator hook_ts_decl)
         children s
     in
-    let n' = JsxF children' in if lower then lower_el e n' s0 else (n', s0)
+    let n' = JsxF children' in
+    (match m with
+     | MNoLower -> (n', s0)
+     | _ -> lower_el e n' s0)
   | JAttr (nm, v) ->
-    let (v', s0) = visit e hook_call hook_declarator hook_ts_decl true v s in
+    let (v', s0) =
+      visit e hook_call hook_declarator hook_ts_decl (jsx_item_mode v) v s
+    in
     ((JAttr (nm, v')), s0)
   | JExprC e0 ->
-    let (e', s0) = visit e hook_call hook_declarator hook_ts_decl true e0 s in
+    let (e', s0) = visit e hook_call hook_declarator hook_ts_decl MExpr e0 s
+    in
     ((JExprC e'), s0)
   | JSpreadChild e0 ->
-    let (e', s0) = visit e hook_call hook_declarator hook_ts_decl true e0 s in
+    let (e', s0) = visit e hook_call hook_declarator hook_ts_decl MExpr e0 s
+    in
     ((JSpreadChild e'), s0)
   | _ -> (n, s)
 
@@ -1489,7 +1500,7 @@ let transform_module e hook_call hook_declarator hook_ts_decl m = match m with
                        let (items', s0) =
                          visit_list_with
                            (visit e hook_call hook_declarator hook_ts_decl)
-                           true items s
+                           MExpr items s
                        in
                        let (items'', s1) = finish_module items' s0 in
                        ((NObj ((Field (kt, ty)) :: ((Field (kb, (NArr
